@@ -711,6 +711,7 @@ def c01_r9(ctx):
     payload = f._call_origins(rd, (("variant", "Ok"), ("field", 0)), frozenset())
     # assignment elem.file_state = payload(.clone())
     found = False
+    store_blocks = []
     for b in f.blocks:
         if b["cleanup"] or b["i"] not in lp["body"]:
             continue
@@ -719,6 +720,7 @@ def c01_r9(ctx):
                 base = f.origins_of_place({"local": s["place"]["local"], "proj": [e for e in s["place"]["proj"][:-1]]})
                 if base == elem and f._rv_origins(s["rv"], (), b["i"], i, frozenset()) == payload:
                     found = True
+                    store_blocks.append(b["i"])
                     ok_edges = f.edges_of_call_variant(rd, "Ok")
                     if lp["header"] in f.reach([x for (_, x) in ok_edges], avoid_blocks=[b["i"]]):
                         ctx.viol((f.id, "refresh-skipped"), "an iteration can skip storing the fresh state", f.where(b["i"], i))
@@ -733,8 +735,8 @@ def c01_r9(ctx):
     good = False
     want_t = {x + (("field", "ticket"),) for x in payload}
     for p in pushes:
-        if f.origins_of_operand(p.args[1]) == want_t:
-            good = True             # the hash itself is collected
+        if _read_after_store(f, f.origins_of_operand(p.args[1]), p.bb, elem, payload, store_blocks) == want_t:
+            good = True             # the hash itself is collected (possibly read back from the state just stored)
         for o in f.origins_of_operand(p.args[1]):
             if o[0][0] == "agg":
                 rv = f.blocks[o[0][2]]["stmts"][o[0][3]]["rv"]
@@ -1138,6 +1140,11 @@ def c17_r3(ctx):
                         lps = [lp for lp in rb.loops() if p.bb in lp["body"]]
                         paths_ok = all(is_call(b, "blob::Blob::get_paths") for b in base)
                         blob_ok = False
+                        if not paths_ok and o[1:] == (("field", "path"),) and base and all(b[-1] == ("field", "file_infos") for b in base):
+                            # `blob.file_infos[i].path`: the same string get_paths()[i] is a copy of
+                            rf = rb.calls_to("blob::Blob::update_to_match_system_file_state")
+                            paths_ok = True
+                            blob_ok = bool(rf) and {b[:-1] for b in base} == rb.origins_of_operand(rf[0].args[0])
                         for b in base:
                             if is_call(b, "blob::Blob::get_paths"):
                                 gp = rb.call_at[b[0][2]]
@@ -1546,6 +1553,40 @@ def c04_r7(ctx):
     ctx.need(n, "a production construction of system::CommandLineOutput")
 
 
+def _read_after_store(f, org, use_bb, elem, payload, store_blocks):
+    """Origins of a value read at use_bb, where `elem.file_state` was overwritten with `payload`
+    in a block every path to use_bb passes: what is read back from that field is the payload."""
+    if not store_blocks or not f.dominated_by_blocks(use_bb, store_blocks):
+        return org
+    out = set()
+    for o in org:
+        hit = False
+        for e in elem:
+            pre = e + (("field", "file_state"),)
+            if o[:len(pre)] == pre:
+                for pl in payload:
+                    out.add(pl + o[len(pre):])
+                hit = True
+        if not hit:
+            out.add(o)
+    return out
+
+
+def _fresh_state_stores(f):
+    """(elem origins, payload origins, blocks) of `x.file_state = <Ok payload of a state-reading call>`."""
+    res = []
+    for b in f.blocks:
+        if b["cleanup"] or b["i"] not in f.live:
+            continue
+        for i, st in enumerate(b["stmts"]):
+            if st["k"] == "assign" and st["place"]["proj"] and st["place"]["proj"][-1].get("name") == "file_state":
+                base = f.origins_of_place({"local": st["place"]["local"], "proj": [e for e in st["place"]["proj"][:-1]]})
+                val = f._rv_origins(st["rv"], (), b["i"], i, frozenset())
+                if base and val and all(o[0][0] == "call" and o[1:] == (("variant", "Ok"), ("field", 0)) for o in val):
+                    res.append((base, val, b["i"]))
+    return res
+
+
 @rule("C01.R11", floor=2)
 def c01_r11(ctx):
     """The hashes handed on are hashes just taken: every ticket put into a FileStateVec by a
@@ -1566,6 +1607,12 @@ def c01_r11(ctx):
             vals = f.contents_of_vector(c.args[0])
             if vals is None:
                 raise AnalysisError("idiom not recognised: the ticket vector given to from_ticket_vec in %s is not a locally built vector of pushed values" % f.id)
+            # (a hash read back from a field that was overwritten with a fresh state on the way)
+            for (base, val, sb) in _fresh_state_stores(f):
+                stale = {o for o in vals if any(o[:len(e) + 1] == e + (("field", "file_state"),) for e in base)}
+                readers = [p2 for p2 in f.calls_to("std::vec::Vec::<T, A>::push") if f.origins_of_operand(p2.args[1]) & stale]
+                if stale and readers and all(f.dominated_by_blocks(p2.bb, [sb]) for p2 in readers):
+                    vals = _read_after_store(f, vals, sb, base, val, [sb])
             bad = []
             for o in vals:
                 ok = False
